@@ -20,7 +20,8 @@
    in the same namespace, conversions keep rows, fields, width.
 
    TLC enumerates every (initial object, operation sequence) case with the
-   expected result; the harness replays each on the real classes.        *)
+   expected result as an initial state; the harness replays each on the real
+   classes.                                                               *)
 EXTENDS Integers, Sequences, FiniteSets, SequencesExt, FiniteSetsExt, Json, IOUtils, TLC
 
 VARIABLE cur      \* the case under examination (one TLC state per case)
@@ -86,13 +87,19 @@ Cuts(n) == {c \in SUBSET (1..(n - 1)) : TRUE}
 PartConcat(o) ==
   [o EXCEPT !.ev = IF o.ev = "own" /\ o.rows = [i \in 1..NRows |-> i] THEN "own" ELSE "none"]
 
+\* tables by number of rows (constant-level: evaluated once)
+SelTable == [n \in 1..NRows |-> Selectors(n)]
+FewTable == [n \in 1..NRows |-> FewSelectors(n)]
+CutTable == [n \in 1..NRows |-> Cuts(n)]
+FewCutTable == [n \in 1..NRows |-> {c2 \in Cuts(n) : Cardinality(c2) = 1}]
+
 Ops(o, few) ==
   LET n == Len(o.rows) IN
   IF o.oned \/ n = 0 THEN {}
   ELSE IF Mode = "algebra" THEN
-       {[op |-> "select", sel |-> s, res |-> Select(o, s)] : s \in (IF few THEN FewSelectors(n) ELSE Selectors(n))}
+       {[op |-> "select", sel |-> s, res |-> Select(o, s)] : s \in (IF few THEN FewTable[n] ELSE SelTable[n])}
        \cup {[op |-> "partconcat", cuts |-> SetToSortSeq(c, <), res |-> PartConcat(o)] :
-               c \in (IF few THEN {c2 \in Cuts(n) : Cardinality(c2) = 1} ELSE Cuts(n))}
+               c \in (IF few THEN FewCutTable[n] ELSE CutTable[n])}
        \cup {[op |-> "pickle", res |-> o]}
        \cup {[op |-> "dict", flat |-> f, res |-> o] : f \in BOOLEAN}
   ELSE \* conversions
@@ -106,12 +113,15 @@ Ops(o, few) ==
                 t \in {"numpy", "torch", "jax"}, d \in {0, 32, 64}}
        \cup (IF few THEN {} ELSE {[op |-> "pickle", res |-> o]})
 
-Cases1 == UNION {{[init |-> o, ops |-> <<p>>, final |-> p.res] : p \in Ops(o, FALSE)} : o \in Inits}
-Cases2 == IF Depth < 2 THEN {}
-          ELSE UNION {UNION {{[init |-> o, ops |-> <<p, q>>, final |-> q.res] : q \in Ops(p.res, TRUE)}
-                               : p \in Ops(o, TRUE)} : o \in Inits}
-
-Cases == Cases1 \cup Cases2
+\* The case space is the set of initial states: every (initial object, operation sequence) with
+\* the expected result.  (An existential Init lets TLC enumerate it directly, in parallel; building it
+\* as one set of ~60 000 records costs minutes in set normalisation.)  The states are dumped by TLC
+\* and replayed on the real classes.
+InitCases ==
+  \/ \E o \in Inits : \E p \in Ops(o, FALSE) : cur = [init |-> o, ops |-> <<p>>, final |-> p.res]
+  \/ /\ Depth >= 2
+     /\ \E o \in Inits : \E p \in Ops(o, TRUE) : \E q \in Ops(p.res, TRUE) :
+           cur = [init |-> o, ops |-> <<p, q>>, final |-> q.res]
 
 (* ---- laws of the reference itself ------------------------------------ *)
 \* selection never invents rows and keeps the field set, class, namespace and width
@@ -123,11 +133,9 @@ IdentityOps == \A c \in {cur} :
                  (\A k \in 1..Len(c.ops) : c.ops[k].op \in {"pickle", "dict", "partconcat", "to_namespace", "to_numpy", "from_samples"})
                     => c.final.rows = c.init.rows
 
-ASSUME PrintT(<<"NCASES", Cardinality(Cases)>>)
-ASSUME JsonSerialize(IOEnv.OUT_FILE, SetToSeq(Cases))
 
 \* one TLC state per case: the laws are state invariants evaluated on every case
-Init == cur \in Cases
+Init == InitCases
 Next == UNCHANGED cur
 Spec == Init /\ [][Next]_cur
 =============================================================================
